@@ -31,3 +31,25 @@ Theorem C12_history : forall re_ok re_match o (h : list call) i x,
   nth_error (map (answer re_ok re_match o) h) i = Some (answer re_ok re_match o x).
 Proof. intros. apply map_nth_error. assumption. Qed.
 Print Assumptions C12_history.
+
+(* ---- source level (gen/Effects.v is regenerated from the repository by the go/ssa translator on every run) ---- *)
+From LD Require Import EffectsDefs EffectsProof.
+From LDGen Require Import Effects.
+
+(* evaluation never modifies the flags, segments, context or evaluator it is given: every write reachable from
+   Evaluate is to call-local or per-call memory *)
+Theorem C12_evaluate_writes_nothing_shared : forall n f e,
+  Reach functions start n -> find_fn functions n = Some f -> In e (fn_effects f) -> write_ok e = true.
+Proof. exact evaluate_writes_nothing_shared. Qed.
+Print Assumptions C12_evaluate_writes_nothing_shared.
+
+(* the evaluator retains nothing between calls: its fields are written by the construction-time option appliers only,
+   and no package-level variable is written anywhere in the library *)
+Theorem C12_evaluator_fields_written_only_at_construction :
+  forallb (fun f => negb (writes_evaluator f) || negb (mem (fn_name f) reachable)) functions = true.
+Proof. exact evaluator_fields_written_only_at_construction. Qed.
+Print Assumptions C12_evaluator_fields_written_only_at_construction.
+Theorem C12_no_package_level_state :
+  forallb (fun f => negb (writes_global f) || String.prefix "init" (fn_name f)) functions = true.
+Proof. exact no_package_level_state_is_written. Qed.
+Print Assumptions C12_no_package_level_state.
